@@ -13,7 +13,14 @@ RULE = (
     "unmasked pixel), isotropic and anisotropic pixel scales, origins up to |20| (3/4) or |100| (1/4), uniform (1/4 of "
     "cases) or per-pixel integer sub-size 1..4, source grid = over-sampled image grid under identity / affine / "
     "affine+sinusoidal warp with jitter; rectangular mesh 3..7 x 3..7 overlaid on the source grid (default buffer, or "
-    "buffer scaled with the plane); Delaunay vertices = jittered 2..7 x 2..7 lattice (5..49 vertices, de-regularised by "
+    "buffer scaled with the plane). CONTAINER (rect, rect-special-points): the source-plane coordinates are handed to "
+    "the overlay and the mapper grids as a plain ndarray, a Grid2DIrregular or a slim Grid2D that still carries an "
+    "image-plane mask / geometry (the image mask itself when sub-size is 1 everywhere - forced in half of the Grid2D "
+    "cases - else a 1 x N strip with the image pixel scales and origin), via the direct route (overlay_grid + "
+    "MapperGrids) or the pixelization route (mesh.Rectangular.mapper_grids_from); in about 70% of rect cases the warp also "
+    "magnifies by 1.5..5x and/or shifts by 1.05..3 frame sizes so that the values leave the frame of the carried mask "
+    "(labelled values-vs-own-frame); the overlays of the three forms must be identical and the drawn form's mapper "
+    "must match the reference; Delaunay vertices = jittered 2..7 x 2..7 lattice (5..49 vertices, de-regularised by "
     "a fixed per-index offset so no four are co-circular) over the source bounding box scaled by 0.6/0.8/1.05/1.3 (so "
     "sub-pixels fall outside the hull in most cases). MAGNITUDE: image-plane pixel scales / origin and the whole source "
     "plane (data grid and mesh vertices) are multiplied by an exact power of two 2**k, k in {0 (about half), -30, -20 "
@@ -42,6 +49,12 @@ RULE = (
     "two source points; further points d cells (same d) on either side of interior row / column boundaries and cell "
     "corners, d cells inside the sides of the bounding box (one buffer from the outer mesh edge), or interior; default "
     "or scaled buffer; same magnitude classes; same rectangular oracle. "
+    "large (enumerated, 3 cases quick / 9 thorough): 44x44 ring mask, per-pixel sub-sizes 1..4 adjusted "
+    "deterministically to an exact number of sub-pixels, Delaunay with 1999..2048 sunflower vertices inside the hole "
+    "(every sub-pixel outside the hull; one case overlapping the inner edge) so that (outside sub-pixels x vertices) "
+    "is just below / at / above 2**22, 2**23, 2**24 with counts no block size 2..16 divides, and rectangular 30x30 / "
+    "31x29 meshes with 9001 / 9311 sub-pixels; oracle = hull-edge test + chunked (509 rows) brute-force nearest "
+    "vertex + full brute force for the few inside points, compared through vectorised versions of the same checks. "
     "rect-neighbors: exhaustive mesh shapes 3..10 x 3..10 (quick) / 3..16 (thorough). Non-trivial = per-pixel sub-size "
     "not constant and at least one image pixel maps to >= 2 source pixels; distinct = SHA-1 of the canonical case."
 )
@@ -152,15 +165,35 @@ def mapper_cases(draw, kind):
         spec["jitter"] = [0.8 * float(v) + 0.06 * float(scene._hash01(k + 0.25)) for k, v in enumerate(j)]
     else:
         spec["buffer"] = draw(st.sampled_from(["default", "default", "scaled"]))
+        # container type of the source-plane coordinates handed to the overlay / mapper grids, and construction route
+        spec["container"] = draw(st.sampled_from(["ndarray", "irregular", "grid2d", "grid2d"]))
+        spec["route"] = "direct" if spec["buffer"] == "scaled" else draw(st.sampled_from(["direct", "pixelization"]))
+        if spec["container"] == "grid2d" and draw(st.booleans()):
+            spec["sub"] = 1      # the Grid2D then carries the image-plane mask itself (one coordinate per image pixel)
+        # distortions that take the coordinates out of the frame of the image-plane mask
+        distort = draw(st.sampled_from(["none", "magnify", "shift", "magnify+shift", "shift"]))
+        spec["distort"] = distort
+        w = spec["warp"]
+        if "magnify" in distort:
+            mag = draw(st.floats(1.5, 5.0))
+            w["a"] = [[mag * float(v) for v in row] for row in w["a"]]
+        if "shift" in distort:
+            sgn = st.sampled_from([-1.0, 1.0])
+            spec["shift_frames"] = [draw(sgn) * draw(st.floats(1.05, 3.0)), draw(sgn) * draw(st.floats(1.05, 3.0))]
     akind, adapt = draw(adapt_images(n))
     origin = draw(st.one_of(gens.origins(mag=20.0), gens.origins(mag=20.0), gens.origins(mag=20.0), gens.origins(mag=100.0)))
+    pixel_scales = draw(gens.pixel_scales())
+    if spec.get("shift_frames"):
+        # shift by more than the frame size (frame = mask shape x pixel scales), expressed in the warp's offset
+        spec["warp"]["b"] = [spec["shift_frames"][0] * len(mask) * pixel_scales[0],
+                             spec["shift_frames"][1] * len(mask[0]) * pixel_scales[1]]
     k = draw(scale_exps())
     if draw(st.integers(0, 19)) == 0:
         # explicit class: upper end of the magnitude regime, max|coordinate| ~ 2**25..2**27 (2**20 x a field 40..100 from zero)
         k = 20
         sign = st.sampled_from([-1.0, 1.0])
         origin = [draw(sign) * draw(st.floats(40.0, 100.0)), draw(sign) * draw(st.floats(40.0, 100.0))]
-    return {"mask": mask, "pixel_scales": draw(gens.pixel_scales()), "origin": origin,
+    return {"mask": mask, "pixel_scales": pixel_scales, "origin": origin,
             "obj": spec, "scale_exp": k, "adapt": adapt, "adapt_kind": akind,
             "ops": draw(op_sequences(kind))}
 
@@ -244,15 +277,22 @@ def _build(case, kind, scale_exp):
     src_unit = scene.apply_warp(base_unit, spec["warp"], np.asarray(org, dtype=float))
     src = src_unit * s                      # exact: power of two
     src_grid = aa.Grid2DIrregular(values=src.copy())
-    out = {"src": src, "verts": None, "buffer": None, "over_sampler": osamp, "scale": s}
+    out = {"src": src, "verts": None, "buffer": None, "over_sampler": osamp, "scale": s, "mask": mask, "pixelization_route": False}
     if kind == "rect":
+        forms = _containers(src, mask)
+        out["forms"] = forms
+        src_grid = forms[spec.get("container", "irregular")]
         if spec.get("buffer") == "scaled":
             out["buffer"] = ref.BUFFER * s
             mesh = aa.Mesh2DRectangular.overlay_grid(grid=src_grid, shape_native=tuple(spec["shape"]), buffer=out["buffer"])
+        elif spec.get("route") == "pixelization":
+            out["buffer"] = ref.BUFFER
+            out["pixelization_route"] = True
+            mesh = None
         else:
             out["buffer"] = ref.BUFFER
             mesh = aa.Mesh2DRectangular.overlay_grid(grid=src_grid, shape_native=tuple(spec["shape"]))
-        min_sep = float(min(mesh.pixel_scales))
+        min_sep = float(min(mesh.pixel_scales)) if mesh is not None else 1.0
     else:
         verts_unit, min_sep = scene.delaunay_vertices(spec, src_unit)
         out["verts"] = verts_unit * s
@@ -261,12 +301,34 @@ def _build(case, kind, scale_exp):
     adapt = None
     if case.get("adapt") is not None:
         adapt = aa.Array2D(values=np.asarray(case["adapt"], dtype=float), mask=mask)
-    mg = aa.MapperGrids(mask=mask, source_plane_data_grid=src_grid, source_plane_mesh_grid=mesh,
-                        image_plane_mesh_grid=None, adapt_data=adapt)
+    if out["pixelization_route"]:
+        # the pixelization's own construction of the mapper grids around the overlay
+        mg = aa.mesh.Rectangular(shape=tuple(spec["shape"])).mapper_grids_from(
+            mask=mask, source_plane_data_grid=src_grid, border_relocator=None, adapt_data=adapt)
+        mesh = mg.source_plane_mesh_grid
+        min_sep = float(min(mesh.pixel_scales))
+    else:
+        mg = aa.MapperGrids(mask=mask, source_plane_data_grid=src_grid, source_plane_mesh_grid=mesh,
+                            image_plane_mesh_grid=None, adapt_data=adapt)
     out["mesh"] = mesh
     out["adapt"] = adapt
     out["mapper"] = aa.Mapper(mapper_grids=mg, over_sampler=osamp, regularization=scene.build_reg(spec.get("reg"), min_sep))
     return out
+
+
+def _containers(src, mask):
+    """The same source-plane coordinates in the three container types a caller may hand over: plain ndarray,
+    Grid2DIrregular, and a slim Grid2D that still carries an image-plane mask / geometry (the image mask itself when
+    there is one coordinate per image pixel, else a 1 x N strip with the image pixel scales and origin) while its
+    values are the source-plane coordinates."""
+    import autoarray as aa
+    src = np.asarray(src, dtype=float)
+    if len(src) == int(mask.pixels_in_mask):
+        carrier = mask
+    else:
+        carrier = aa.Mask2D(mask=np.zeros((1, len(src)), dtype=bool), pixel_scales=mask.pixel_scales, origin=mask.origin)
+    return {"ndarray": src.copy(), "irregular": aa.Grid2DIrregular(values=src.copy()),
+            "grid2d": aa.Grid2D(values=src.copy(), mask=carrier)}
 
 
 def _read(mapper, name):
@@ -545,7 +607,44 @@ def body_rect(case, ctx):
     if prep is None:
         return
     mapper, b, sub, per_pixel, bmat, owner, src = prep
+    _container_checks(ctx, case, b, shape)
     _rect_core(ctx, mapper, b["mesh"], src, shape, b["buffer"], sub, per_pixel, bmat, owner)
+
+
+def _container_checks(ctx, case, b, shape):
+    """The mesh laid over the same coordinates must not depend on the container type that carries them."""
+    import autoarray as aa
+    spec = case["obj"]
+    cont = spec.get("container", "irregular")
+    ctx.label("container:%s" % cont)
+    ctx.label("route:%s" % ("pixelization" if b["pixelization_route"] else "direct"))
+    ctx.label("distort:%s" % spec.get("distort", "none"))
+    g = b["forms"]["grid2d"]
+    x0, x1, y0, y1 = [float(v) for v in g.mask.geometry.extent]
+    src = b["src"]
+    outside = (src[:, 0] < y0) | (src[:, 0] > y1) | (src[:, 1] < x0) | (src[:, 1] > x1)
+    frame_cls = "all-outside" if outside.all() else "some-outside" if outside.any() else "inside"
+    ctx.label("values-vs-own-frame:%s" % frame_cls)
+    if cont == "grid2d":
+        ctx.label("grid2d:%s:values-%s-frame" % ("image-mask" if g.mask.shape_native == b["mask"].shape_native else "strip-mask", frame_cls))
+    kw = {"buffer": b["buffer"]} if spec.get("buffer") == "scaled" else {}
+    base = aa.Mesh2DRectangular.overlay_grid(grid=b["forms"]["irregular"], shape_native=tuple(shape), **kw)
+    for name in ("ndarray", "grid2d"):
+        other = aa.Mesh2DRectangular.overlay_grid(grid=b["forms"][name], shape_native=tuple(shape), **kw)
+        same = (tuple(other.shape_native) == tuple(base.shape_native)
+                and _same(np.asarray(other.pixel_scales, dtype=float), np.asarray(base.pixel_scales, dtype=float))
+                and _same(np.asarray(other.origin, dtype=float), np.asarray(base.origin, dtype=float))
+                and _same(np.asarray(other, dtype=float), np.asarray(base, dtype=float)))
+        ctx.check(same, "rect/container/%s/mesh-differs-from-irregular/%s" % (name, frame_cls),
+                  lambda: "overlay of the same coordinates as %s: origin %s pixel_scales %s; as Grid2DIrregular: origin %s pixel_scales %s" % (
+                      name, other.origin, other.pixel_scales, base.origin, base.pixel_scales))
+    if b["pixelization_route"]:
+        m = b["mesh"]
+        same = (_same(np.asarray(m.pixel_scales, dtype=float), np.asarray(base.pixel_scales, dtype=float))
+                and _same(np.asarray(m, dtype=float), np.asarray(base, dtype=float)))
+        ctx.check(same, "rect/container/%s/pixelization-route-mesh-differs/%s" % (cont, frame_cls),
+                  lambda: "mesh.Rectangular.mapper_grids_from with a %s: origin %s pixel_scales %s; direct overlay: origin %s pixel_scales %s" % (
+                      cont, m.origin, m.pixel_scales, base.origin, base.pixel_scales))
 
 
 def _rect_core(ctx, mapper, mesh, src, shape, buffer, sub, per_pixel, bmat, owner):
@@ -819,6 +918,7 @@ def rect_special_cases(draw):
     return {"sub": sub, "shape": [draw(st.integers(3, 7)), draw(st.integers(3, 7))],
             "box": [draw(gens.reals(-5, 5)), draw(gens.reals(-5, 5)), draw(gens.positives(0.1, 5.0)), draw(gens.positives(0.1, 5.0))],
             "buffer": draw(st.sampled_from(["default", "default", "scaled"])),
+            "container": draw(st.sampled_from(["ndarray", "irregular", "grid2d"])),
             "points": pts, "scale_exp": draw(scale_exps())}
 
 
@@ -860,7 +960,9 @@ def body_rect_special(case, ctx):
     mask = aa.Mask2D(mask=np.zeros((1, n), dtype=bool), pixel_scales=(sc, sc))
     osamp = scene.over_sampler_for(mask, [int(v) for v in sub])
     bmat, owner = ref.binning_matrix(sub)
-    grid = aa.Grid2DIrregular(values=src.copy())
+    cont = case.get("container", "irregular")
+    ctx.label("container:%s" % cont)
+    grid = _containers(src, mask)[cont]       # grid2d: the 1 x n image mask (or a 1 x N strip) at the origin; the box is elsewhere
     if case["buffer"] == "scaled":
         mesh = aa.Mesh2DRectangular.overlay_grid(grid=grid, shape_native=(ny, nx), buffer=buf_in)
     else:
@@ -868,6 +970,253 @@ def body_rect_special(case, ctx):
     mg = aa.MapperGrids(mask=mask, source_plane_data_grid=grid, source_plane_mesh_grid=mesh)
     mapper = aa.Mapper(mapper_grids=mg, over_sampler=osamp, regularization=None)
     _rect_core(ctx, mapper, mesh, src, [ny, nx], buf_in, sub, per_pixel, bmat, owner)
+
+
+# ---- large instances (sizes that cross internal blocking / chunking thresholds) -----------------------
+def _is_prime(v):
+    if v < 2:
+        return False
+    i = 2
+    while i * i <= v:
+        if v % i == 0:
+            return False
+        i += 1
+    return True
+
+
+def _prime_near(v, step):
+    while not _is_prime(v):
+        v += step
+    return v
+
+
+def _blockfree_near(v, step):
+    """Nearest count in direction `step` that no small block size (2..16) divides."""
+    while any(v % q == 0 for q in (2, 3, 5, 7, 11, 13)):
+        v += step
+    return v
+
+
+def cases_large(tier):
+    """(sub-pixels x vertices) just below / at / above 2**22, 2**23, 2**24 with counts that no block size 2..16
+    divides, except for the exact powers of two."""
+    def below(t, p):
+        return _blockfree_near(t // p, -1)
+
+    def above(t, p):
+        return _blockfree_near(t // p + 1, 1)
+
+    quick = [
+        {"kind": "delaunay", "vertices": 1999, "target_n": above(2 ** 24, 1999), "ring": [12.0, 21.0], "overlap": False, "scale_exp": 0},
+        {"kind": "delaunay", "vertices": 2048, "target_n": 2048, "ring": [12.0, 14.5], "overlap": False, "scale_exp": -20},
+        {"kind": "rect", "shape": [30, 30], "target_n": _prime_near(9001, 1), "ring": [12.0, 21.0], "scale_exp": 0},
+    ]
+    more = [
+        {"kind": "delaunay", "vertices": 1999, "target_n": below(2 ** 24, 1999), "ring": [12.0, 21.0], "overlap": False, "scale_exp": 0},
+        {"kind": "delaunay", "vertices": 2048, "target_n": 8192, "ring": [12.0, 21.0], "overlap": False, "scale_exp": 0},
+        {"kind": "delaunay", "vertices": 2003, "target_n": above(2 ** 23, 2003), "ring": [14.0, 20.0], "overlap": False, "scale_exp": 10},
+        {"kind": "delaunay", "vertices": 2047, "target_n": 2049, "ring": [12.0, 14.5], "overlap": False, "scale_exp": 0},
+        {"kind": "delaunay", "vertices": 2039, "target_n": above(2 ** 24, 2039), "ring": [12.0, 21.0], "overlap": True, "scale_exp": 0},
+        {"kind": "rect", "shape": [31, 29], "target_n": _prime_near(9300, 1), "ring": [12.0, 21.0], "scale_exp": -20},
+    ]
+    return quick if tier == "quick" else quick + more
+
+
+LARGE_SIZE = 44
+LARGE_A = np.array([[1.1, 0.2], [-0.1, 0.9]])
+
+
+def _large_instance(case):
+    """Deterministic construction: 44x44 ring mask, per-pixel sub-sizes 1..4 from a fixed hash adjusted so that the
+    number of sub-pixels is exactly target_n (the last few units by unmasking corner pixels with sub-size 1)."""
+    size = LARGE_SIZE
+    c = (size - 1) / 2.0
+    r0, r1 = case["ring"]
+    ii, jj = np.meshgrid(np.arange(size), np.arange(size), indexing="ij")
+    d = np.hypot(ii - c, jj - c)
+    ring = (d >= r0) & (d <= r1)
+    n = int(ring.sum())
+    sub = (1 + np.floor(2.0 * (scene._hash01(np.arange(n) + 0.125) + 1.0))).astype(int).clip(1, 4)
+    target = int(case["target_n"])
+    total = int((sub ** 2).sum())
+    i = 0
+    while total > target and i < 8 * n:
+        k = i % n
+        if sub[k] > 1:
+            total -= 2 * sub[k] - 1
+            sub[k] -= 1
+        i += 1
+    i = 0
+    while target - total >= 3 and i < 8 * n:
+        k = (7 * i) % n
+        if sub[k] < 4 and 2 * sub[k] + 1 <= target - total:
+            total += 2 * sub[k] + 1
+            sub[k] += 1
+        i += 1
+    resid = target - total
+    assert 0 <= resid < 200, (resid, n)
+    extra = np.argwhere(d > r1 + 2.0)[:resid]
+    unmasked = ring.copy()
+    submap = np.zeros((size, size), dtype=int)
+    submap[ring] = sub
+    for (a, b) in extra:
+        unmasked[a, b] = True
+        submap[a, b] = 1
+    sub_all = submap[unmasked]
+    assert int((sub_all ** 2).sum()) == target
+    return ~unmasked, sub_all
+
+
+def _large_checks(ctx, kind, mapper, sub, owner, pixels, ref_k, ref_p, ref_w, sub_ok, tol):
+    """Vectorised version of the common checks for large instances; the reference interpolation weights are given as
+    triplets (sub-pixel, source pixel, weight)."""
+    key = "large/" + kind
+    n, nsub = len(sub), len(owner)
+    frac = 1.0 / (sub.astype(float) ** 2)
+    psw = ctx.impl(key + "/pix_sub_weights", lambda: mapper.pix_sub_weights)
+    mappings = np.asarray(psw.mappings); sizes = np.asarray(psw.sizes); weights = np.asarray(psw.weights, dtype=float)
+    ok = mappings.ndim == 2 and mappings.shape[0] == nsub and sizes.shape == (nsub,) and weights.shape == mappings.shape
+    ctx.check(ok, key + "/pix_sub_weights/shape", "mappings %s sizes %s weights %s for %d sub-pixels" % (mappings.shape, sizes.shape, weights.shape, nsub))
+    if not ok:
+        return None
+    kmax = mappings.shape[1]
+    valid = np.arange(kmax)[None, :] < sizes[:, None]
+    rng_ok = bool(np.all((sizes >= 1) & (sizes <= kmax)) and np.all((mappings[valid] >= 0) & (mappings[valid] < pixels)))
+    ctx.check(rng_ok, key + "/pix_sub_weights/range", "sizes outside 1..%d (min %s) or mapped index outside 0..%d" % (kmax, sizes.min(), pixels - 1))
+    if not rng_ok:
+        return None
+    ctx.check(bool(np.all(weights[valid] >= 0.0)), key + "/pix_sub_weights/negative-weight", "negative interpolation weight")
+    ctx.close(np.where(valid, weights, 0.0).sum(axis=1), np.ones(nsub), key + "/pix_sub_weights/weights-sum", atol=TOL_SUM,
+              what="interpolation weights per sub-pixel sum to 1")
+    kk = np.repeat(np.arange(nsub), kmax).reshape(nsub, kmax)[valid]
+    pp = mappings[valid].astype(int)
+    ww = weights[valid]
+    own = np.zeros((n, pixels))
+    np.add.at(own, (owner[kk], pp), ww * frac[owner[kk]])
+    mm = np.asarray(ctx.impl(key + "/mapping_matrix", lambda: mapper.mapping_matrix), dtype=float)
+    ctx.check(mm.shape == (n, pixels), key + "/mapping_matrix/shape", "shape %s expected %s" % (mm.shape, (n, pixels)))
+    if mm.shape != (n, pixels):
+        return None
+    ctx.check(bool(np.all(np.isfinite(mm)) and np.all(mm >= 0.0)), key + "/mapping_matrix/negative-or-non-finite", "min %r" % float(np.nanmin(mm)))
+    ctx.close(mm.sum(axis=1), np.ones(n), key + "/mapping_matrix/row-sum", atol=TOL_SUM, what="row sums (flux conservation)")
+    ctx.close(mm, own, key + "/mapping_matrix/accumulation", atol=TOL_SUM, what="mapping_matrix vs sum over own sub-pixels of weight/sub_i^2")
+    m_ref = np.zeros((n, pixels))
+    np.add.at(m_ref, (owner[ref_k], ref_p), ref_w * frac[owner[ref_k]])
+    row_ok = np.ones(n, dtype=bool)
+    row_ok[owner[~sub_ok]] = False
+    ctx.tie(int((~sub_ok).sum()))
+    row_tol = np.full(n, TOL_REF)
+    np.maximum.at(row_tol, owner, tol)
+    err = np.abs(mm - m_ref).max(axis=1)
+    bad = row_ok & ~(err <= row_tol)
+    ctx.check(not bad.any(), key + "/mapping_matrix/vs-reference",
+              lambda: "mapping_matrix vs reference: %d rows differ, first %s, largest error %.3g (got max entry at %s, want %s)" % (
+                  int(bad.sum()), np.flatnonzero(bad)[:5], float(err[bad].max()), mm[bad][0].argmax(), m_ref[bad][0].argmax()))
+    # unique mappings
+    um = ctx.impl(key + "/unique_mappings", lambda: mapper.unique_mappings)
+    dpu = np.asarray(um.data_to_pix_unique); dw = np.asarray(um.data_weights, dtype=float); pl = np.asarray(um.pix_lengths)
+    u_ok = dpu.ndim == 2 and dpu.shape[0] == n and dw.shape == dpu.shape and pl.shape == (n,)
+    ctx.check(u_ok, key + "/unique_mappings/shape", "data_to_pix_unique %s data_weights %s pix_lengths %s" % (dpu.shape, dw.shape, pl.shape))
+    if u_ok:
+        uv = np.arange(dpu.shape[1])[None, :] < pl[:, None]
+        ids = dpu[uv]
+        r_ok = bool(np.all(pl >= 1) and np.all(pl <= dpu.shape[1]) and np.all(ids == np.round(ids)) and np.all((ids >= 0) & (ids < pixels)))
+        ctx.check(r_ok, key + "/unique_mappings/range", "pix_lengths or indexes out of range")
+        ctx.check(bool(np.all(dpu[~uv] == -1) and np.all(dw[~uv] == 0.0)), key + "/unique_mappings/padding", "entries beyond pix_lengths are not (-1, 0.0)")
+        if r_ok:
+            rebuilt = np.zeros((n, pixels))
+            rows = np.repeat(np.arange(n), dpu.shape[1]).reshape(dpu.shape)[uv]
+            np.add.at(rebuilt, (rows, ids.astype(int)), dw[uv])
+            ctx.close(rebuilt, mm, key + "/unique_mappings/vs-dense", atol=TOL_SUM, what="matrix rebuilt from unique mappings vs mapping_matrix")
+            pairs = np.unique(np.stack([owner[kk], pp], axis=1), axis=0)
+            want_len = np.bincount(pairs[:, 0], minlength=n)
+            ctx.equal(pl.astype(int), want_len, key + "/unique_mappings/pix_lengths", "pix_lengths vs number of distinct mapped source pixels")
+            upairs = np.stack([rows, ids.astype(int)], axis=1)
+            ctx.check(len(np.unique(upairs, axis=0)) == len(upairs), key + "/unique_mappings/duplicate", "a source pixel is listed twice for one image pixel")
+    ctx.nt(len(set(sub.tolist())) > 1 and bool(np.any((mm > 0).sum(axis=1) >= 2)))
+    return mappings, sizes, weights
+
+
+def body_large(case, ctx):
+    import autoarray as aa
+    kind = case["kind"]
+    m, sub = _large_instance(case)
+    n = len(sub)
+    k = int(case.get("scale_exp", 0))
+    s = 2.0 ** k
+    ctx.label(_scale_label(k))
+    ctx.label("large:%s" % kind)
+    mask = aa.Mask2D(mask=m.copy(), pixel_scales=(0.05 * s, 0.05 * s))
+    unit_mask = aa.Mask2D(mask=m.copy(), pixel_scales=(0.05, 0.05))
+    sub_arr = [int(v) for v in sub]
+    osamp = scene.over_sampler_for(mask, sub_arr)
+    base = np.asarray(scene.over_sampler_for(unit_mask, sub_arr).over_sampled_grid, dtype=float)
+    bmat_owner = np.repeat(np.arange(n), sub ** 2)
+    src = (base @ LARGE_A.T) * s
+    ctx.check(src.shape == (int(case["target_n"]), 2), "large/precondition/sub-pixel-count", "%s sub-pixels, wanted %d" % (src.shape, case["target_n"]))
+    grid = aa.Grid2DIrregular(values=src.copy())
+    if kind == "rect":
+        ny, nx = case["shape"]
+        mesh = aa.Mesh2DRectangular.overlay_grid(grid=grid, shape_native=(ny, nx))
+        mapper = aa.Mapper(mapper_grids=aa.MapperGrids(mask=mask, source_plane_data_grid=grid, source_plane_mesh_grid=mesh),
+                           over_sampler=osamp, regularization=None)
+        r = ref.rect_reference(src, (ny, nx))
+        tie_abs = 64.0 * ref.EPS * (float(np.abs(src).max()) + r["buffer"])
+        sub_ok = r["bdist"] > tie_abs
+        ctx.label("large:sub-pixels=%d" % len(src))
+        out = _large_checks(ctx, "rect", mapper, sub, bmat_owner, ny * nx, np.arange(len(src)), np.clip(r["pix"], 0, ny * nx - 1),
+                            np.ones(len(src)), sub_ok, np.full(len(src), TOL_REF))
+        if out is not None:
+            got = out[0][:, 0].astype(int)
+            ctx.equal(got[sub_ok], r["pix"][sub_ok], "large/rect/cell-index", "cell index of every sub-pixel outside the tie band")
+        nb = mapper.neighbors
+        _check_neighbors(ctx, np.asarray(nb), nb.sizes, ref.rect_adjacency((ny, nx)), "large/rect/neighbors")
+        return
+    # Delaunay: vertices on a jittered sunflower inside the hole of the ring (or slightly overlapping its inner edge)
+    p = int(case["vertices"])
+    r0 = float(case["ring"][0])
+    rv = ((r0 + 1.5) if case.get("overlap") else (r0 - 2.0)) * 0.05
+    i = np.arange(p)
+    rad = rv * np.sqrt((i + 0.5) / p) * (1.0 + 0.002 * scene._hash01(i + 0.375))
+    th = i * 2.399963229728653 + 0.01 * scene._hash01(i + 0.625)
+    verts = (np.stack([rad * np.sin(th), rad * np.cos(th)], axis=1) @ LARGE_A.T) * s
+    mesh = aa.Mesh2DDelaunay(values=verts.copy())
+    mapper = aa.Mapper(mapper_grids=aa.MapperGrids(mask=mask, source_plane_data_grid=grid, source_plane_mesh_grid=mesh),
+                       over_sampler=osamp, regularization=None)
+    r = ref.delaunay_reference_large(src, verts)
+    inside = r["inside"]
+    n_out = int((~inside).sum())
+    pairs = n_out * p
+    pw = min((22, 23, 24), key=lambda e: abs(pairs - 2 ** e))
+    ctx.label("large:outside-x-vertices-%s-2^%d" % ("at" if pairs == 2 ** pw else "below" if pairs < 2 ** pw else "above", pw))
+    ctx.label("large:outside=%d,vertices=%d" % (n_out, p))
+    ctx.label("large:some-inside-hull" if inside.any() else "large:all-outside-hull")
+    inner = r["inside_ref"]
+    idx_in = r["inside_index"]
+    sub_ok = ~r["hull_tie"] & np.where(inside, True, r["nearest_gap"] > 1e-9)
+    tol = np.full(len(src), TOL_REF)
+    ref_k = [np.flatnonzero(~inside)]
+    ref_p = [r["nearest"][~inside]]
+    ref_w = [np.ones(n_out)]
+    if inner is not None:
+        general = inner["general_margin"] >= GENERAL_MARGIN
+        ok_in = (~inner["hull_tie"]) & (inner["quality_best"] >= QUALITY_MIN) & inner["has_candidate"] & general
+        sub_ok[idx_in] &= np.where(inner["inside"], ok_in, True)
+        tol[idx_in] = np.where(inner["inside"], TOL_REF + 32.0 * ref.EPS * inner["kappa"], TOL_REF)
+        rows, cols = np.nonzero(inner["S"] * inner["inside"][:, None])
+        ref_k.append(idx_in[rows]); ref_p.append(cols); ref_w.append(inner["S"][rows, cols])
+    out = _large_checks(ctx, "delaunay", mapper, sub, bmat_owner, p, np.concatenate(ref_k), np.concatenate(ref_p),
+                        np.concatenate(ref_w), sub_ok, tol)
+    if out is not None:
+        mappings, sizes, weights = out
+        ctx.equal(sizes[sub_ok], np.where(inside, 3, 1)[sub_ok], "large/delaunay/inside-outside-classification",
+                  "number of mapped vertices (3 inside the hull, 1 outside)")
+        o = sub_ok & ~inside
+        ctx.equal(mappings[o, 0].astype(int), r["nearest"][o], "large/delaunay/nearest-vertex",
+                  "outside-hull sub-pixels map to their nearest vertex (chunked brute force)")
+        ctx.equal(weights[o, 0], np.ones(int(o.sum())), "large/delaunay/nearest-vertex-weight", "weight of the nearest vertex")
+    nb = mapper.neighbors
+    _check_neighbors(ctx, np.asarray(nb), nb.sizes, r["adjacency"], "large/delaunay/neighbors")
 
 
 def cases_rect_neighbors(tier):
@@ -901,5 +1250,6 @@ SUBCHECKS = [
              examples={"quick": 600, "thorough": 4000}, shards={"quick": 2, "thorough": 2}),
     SubCheck("rect-special-points", body_rect_special, strategy=rect_special_cases(),
              examples={"quick": 600, "thorough": 4000}, shards={"quick": 2, "thorough": 2}),
+    SubCheck("large", body_large, cases=cases_large, shards={"quick": 3, "thorough": 9}),
     SubCheck("rect-neighbors", body_rect_neighbors, cases=cases_rect_neighbors, shards={"quick": 1, "thorough": 1}),
 ]
